@@ -474,3 +474,33 @@ def gen_programs(rnd: random.Random, n: int):
         out.append(g.module())
         hist.update(g.hist)
     return out, hist
+
+
+def impl_uses(mods, source: str, limit=40):
+    """Direct runs of the real fixes._get_uses_of: [(scope id, node id, [use ids] | 'exc:<class>')]"""
+    core, fixes = mods["core"], mods["fixes"]
+    with common.quiet():
+        root = core.parse(source)
+        m, ids = abstract_module(root, source)
+    scope_of = {d["scope"]: None for d in m["defs"]}
+    nodes_by_id = {v: k for k, v in ids.items()}
+    for d in m["defs"]:
+        scope_of[d["scope"]] = nodes_by_id[d["id"]]
+    items = []
+    for o in m["occs"]:
+        if o["ctx"] == "Store":
+            items.append((o["id"], o["scopes"]))
+    for d in m["defs"]:
+        items.append((d["id"], d["scopes"]))
+    out = []
+    for nid, chain in items[:limit]:
+        node = nodes_by_id[nid]
+        for sid in [0] + list(chain):
+            scope = root if sid == 0 else scope_of[sid]
+            try:
+                with common.quiet():
+                    got = sorted(ids[u] for u in fixes._get_uses_of(node, scope, source))
+            except Exception as e:  # noqa
+                got = "exc:" + type(e).__name__
+            out.append((sid, nid, got))
+    return m, out
